@@ -23,3 +23,9 @@ def obligations(tier):
                           ["real LALR driver + actions + BaseData post-processing (harness/drv.py c_items)"],
                           f"delimited / differently cased column names {nst} in column definitions, key lists, constraints and foreign keys are reported verbatim and never confused with each other"))
     return obs
+
+
+def solver_queries(tier, scratch):
+    from vf import rx_queries as rq
+    n = 16 if tier == "quick" else 40
+    return rq.identifier_queries(scratch, "C06", n) + rq.delimited_queries(scratch, "C06")
